@@ -78,6 +78,19 @@ func (c07) Gen(r *sim.Rand, tier string, run uint64) *sim.Scenario {
 			ops = append(ops, genComment(r))
 		}
 	}
+	if r.Chance(1, 4) && len(ops) >= 2 {
+		// part of the sequence is emitted through a Clone and appended back: still one
+		// straight-line sequence of emitter calls the assembler accepts
+		a := r.Intn(len(ops))
+		b := a + 1 + r.Intn(len(ops)-a)
+		var out []sim.Op
+		out = append(out, ops[:a]...)
+		out = append(out, sim.Op{K: "clone"})
+		out = append(out, ops[a:b]...)
+		out = append(out, sim.Op{K: "append"})
+		out = append(out, ops[b:]...)
+		ops = out
+	}
 	if set, base := genBase(r, 200); set {
 		base &= 0x7FFFFF
 		ops = append([]sim.Op{{K: "setbase", N: []int64{int64(base)}}}, ops...)
@@ -98,13 +111,32 @@ func (c07) Exec(sc *sim.Scenario, env *sim.Env) *sim.Violation {
 	defer sim.Deactivate()
 	st := env.Stats
 	env.SetWatchdog(40000000)
-	e := asm.NewEmitter(make([]byte, 256), false)
+	orig := asm.NewEmitter(make([]byte, 256), false)
+	e := orig
 	m := newAsmModel(true, 256, false)
 	var evs []c07ev
 	seenIns := false
 	widthRefusal, lateAssume := false, false
 	for i, op := range sc.Ops {
 		switch op.K {
+		case "clone":
+			if e == orig {
+				var c *asm.Emitter
+				if p, pv := sim.RecoverLib(func() { c = orig.Clone(make([]byte, 256)) }); p || c == nil {
+					return &sim.Violation{Oracle: "clone_panic", Step: i, Msg: sim.PanicString(pv)}
+				}
+				e = c
+				st.Probe("segment_through_clone")
+			}
+			continue
+		case "append":
+			if e != orig {
+				if p, pv := sim.RecoverLib(func() { orig.Append(e) }); p {
+					return &sim.Violation{Oracle: "append_panic", Step: i, Msg: sim.PanicString(pv)}
+				}
+				e = orig
+			}
+			continue
 		case "ins":
 			am := asmByName[op.S]
 			if am == nil || am.Ctrl || am.IsRef {
@@ -180,6 +212,12 @@ func (c07) Exec(sc *sim.Scenario, env *sim.Env) *sim.Violation {
 	}
 	if widthRefusal || lateAssume {
 		st.MarkNontrivial()
+	}
+	if e != orig {
+		if p, pv := sim.RecoverLib(func() { orig.Append(e) }); p {
+			return &sim.Violation{Oracle: "append_panic", Step: len(sc.Ops), Msg: sim.PanicString(pv)}
+		}
+		e = orig
 	}
 	prog := append([]byte{}, e.Bytes()...)
 	base := e.GetBase()
